@@ -125,6 +125,9 @@ Definition reshape_gather (newshape : shape) (s : shape) : option gather :=
 
 (* apply a gather to flat data *)
 Definition apply_gather (T : Type) (x0 : T) (g : gather) (data : seq T) : seq T := [seq nth x0 data o | o <- g.2].
+(* write through a view: element k of vals goes to the parent cell g.2[k] *)
+Definition scatter (T : Type) (x0 : T) (g : gather) (vals : seq T) (data : seq T) : seq T :=
+  foldl (fun dat (ov : nat * T) => set_nth x0 dat ov.1 ov.2) data (zip g.2 vals).
 
 (* ---------- UTPM values: shape and, for each direction p and element e (row major), a series ---------- *)
 Section Utpm.
@@ -151,4 +154,14 @@ Definition unopU (op : seq K -> seq K) (x : utpm) : utpm := (x.1, [seq [seq op s
 Definition gatherU (g : gather) (x : utpm) : utpm := (g.1, [seq apply_gather [::] g dir | dir <- x.2]).
 
 Definition flatU (x : utpm) : seq K := flatten (flatten x.2).
+
+(* the (d,p) coefficient slice as flat row-major data: what x.data[d,p] holds *)
+Definition slice_dp (x : utpm) (d p : nat) : seq K := [seq s`_d | s <- nth [::] x.2 p].
+
+(* x[ix] = rhs through the view g: per direction, the rhs series are written to the selected parent cells;
+   a constant right-hand side sets the zeroth coefficient and clears the higher ones *)
+Definition setitemU (g : gather) (rhs : seq (seq (seq K))) (x : utpm) : utpm :=
+  (x.1, [seq scatter [::] g (nth [::] rhs p) (nth [::] x.2 p) | p <- iota 0 (ndirs x)]).
+Definition setitem_constU (g : gather) (D : nat) (cs : seq K) (x : utpm) : utpm :=
+  setitemU g (nseq (ndirs x) [seq constS c D | c <- cs]) x.
 End Utpm.
